@@ -13,6 +13,7 @@ theorems that use them (`KernelLen`, `LeidenContract`, `ChoiceOK`, `IsArgsort`) 
 import SkNet.Lemmas.ClusteringLeiden
 import SkNet.Lemmas.ClusteringSecondary
 import SkNet.Lemmas.ClusteringKCenters
+import SkNet.Lemmas.ClusteringAggregate
 
 namespace SkNet.C05
 open SkNet SkNet.Clustering
@@ -229,6 +230,15 @@ theorem probs_row_sum_bipartite {a : SpMat} {nCol : Nat} {lr lc : List Nat} (hr 
   rw [nLabels_append]
   exact secondaryBip_spec hr hc hlr hlc hcols hw rp ra
 
+/-- ★ the value of every entry of `probs_`: the weight from node `i` to cluster `c` over the out-weight of `i` -/
+theorem probs_entry_eq (a : SpMat) (labels : List Nat) (k : Nat)
+    (hw : ∀ row ∈ a, ∀ e ∈ row, 0 ≤ e.2) (hl : ∀ row ∈ a, ∀ e ∈ row, labels.getD e.1 k < k)
+    {i c : Nat} (hi : i < a.length) (hc : c < k) :
+    ((normalizeRows (dotMember a labels k)).getD i []).getD c 0 =
+      if rowWeight (a.getD i []) = 0 then 0
+      else classSum (a.getD i []) (fun e => labels.getD e.1 k) (·.2) c / rowWeight (a.getD i []) :=
+  probs_entry a labels k hw hl hi hc
+
 /-- ★ the entry formula on its own -/
 theorem aggregate_entry_eq (a : SpMat) (lr lc : List Nat) (k : Nat) (hlen : lr.length = a.length)
     {x y : Nat} (hx : x < k) (hy : y < k) :
@@ -326,6 +336,33 @@ theorem propagation_outputs_valid {argsort : List Int → List Nat} (hs : ∀ ke
   obtain ⟨s, h1, h2⟩ := secondary_of_valid bipartite nRow hv hshape hcols hw rp ra
   rw [← hsplit] at h1 h2
   exact ⟨s, h1, h2⟩
+
+/-- ★ `postprocess.aggregate_graph` (integer labels, negative ones ignored; `labels_row` alias of `labels`;
+    without `labels_col` the row labels are used for the columns): when it returns, the result has
+    `max row label + 1` rows and `max column label + 1` columns and entry `(x, y)` is the sum of the input weights
+    from the rows labelled `x` to the columns labelled `y` -/
+theorem aggregate_graph_entries {a : SpMat} {nCol : Nat} {labels labelsRow labelsCol : Option (List Int)}
+    {kr kc : Nat} {g : List (List Rat)}
+    (h : aggregateGraph a nCol labels labelsRow labelsCol = .ok (kr, kc, g)) :
+    ∃ lr, rowLabelsArg labels labelsRow = some lr ∧
+      g.length = kr ∧ ∀ x, x < kr → (g.getD x []).length = kc ∧
+        ∀ y, y < kc → (g.getD x []).getD y 0 = aggEntryInt a lr (colLabelsArg labelsCol lr) x y :=
+  aggregateGraph_spec h
+
+example : aggregateGraph exA 3 none (some [1, -1, 0]) (some [0, 0, 2]) = .ok (2, 3, [[0, 0, 0], [3, 0, 0]]) := by
+  decide +kernel
+
+/-- ★ `get_membership` for arbitrary integer labels: one row per label, a single stored column for a
+    non-negative label (inside the shape), an empty row for a negative one -/
+theorem get_membership_rows {l : List Int} {k : Option Nat} {m : Membership}
+    (h : getMembership l k = .ok m) :
+    m.rows.length = l.length ∧
+    ∀ i (hi : i < l.length), m.rows.getD i [] = (if 0 ≤ l[i] then [l[i].toNat] else []) ∧
+      (0 ≤ l[i] → l[i].toNat < m.nCol) :=
+  getMembership_spec h
+
+example : getMembership [2, -1, 0] none = .ok ⟨3, [[2], [], [0]]⟩ ∧ getMembership [2, -1, 0] (some 2) = .error .valueError
+    ∧ getMembership [] none = .error .valueError := by decide
 
 /-! ## 6b. from the shape of the input: routing, refusals, row / column vectors -/
 
